@@ -354,6 +354,14 @@ def build_world(case):
                     for sh in shapes:
                         if isinstance(sh, Polygon) and r2.random() < 0.7:
                             sh.vertices = np.array(sh.vertices[:-1], dtype=float)
+    # nothing requires a set-based prediction to store its occupancies chronologically (the lookup is by time step):
+    # half of them are rotated, through the public setter (seed C19-14: the horizon read off the last element)
+    r3 = random.Random(case["seed"] ^ 0x99)
+    for o in sc.obstacles:
+        p = getattr(o, "prediction", None)
+        if isinstance(p, SetBasedPrediction) and len(p.occupancy_set) > 1 and r3.random() < 0.5:
+            k = r3.randrange(1, len(p.occupancy_set))
+            p.occupancy_set = p.occupancy_set[k:] + p.occupancy_set[:k]
     lids = [la.lanelet_id for la in sc.lanelet_network.lanelets]
     pps = scen.rand_planning_problem_set(rng, n=w["npp"], lanelet_ids=lids or None)
     # a third of the predicted vehicles are predicted with a footprint of their own (a safety margin around the
